@@ -248,6 +248,24 @@ fn group_b(cat: &mut Catalogue, tier: Tier) {
             }
         }
     }
+    // B5: wide structs (more than 20 fields, skipped fields interleaved): the accepted-keys list
+    // and the key → field pairing must follow declaration order at any size
+    for (deny, ra) in [(Deny::Default, None), (Deny::Custom, Some(RenameAll::Camel)), (Deny::No, None)] {
+        let mut s = st((0..24)
+            .map(|i| {
+                let mut f = FieldSpec::plain(&format!("f_{}{}", (b'a' + (i / 6) as u8) as char, (b'a' + (i % 6) as u8) as char), pu8());
+                f.skip = i % 5 == 0 || i == 7;
+                if i % 4 == 1 {
+                    f.default = DefaultSpec::Expr;
+                }
+                f
+            })
+            .collect());
+        s.deny = deny;
+        s.rename_all = ra;
+        let i = cat.add(Item::Struct(s));
+        cat.root(p(Ty::Item(i)), "B5", format!("wide struct, 24 fields, 6 skipped, {deny:?} {ra:?}"));
+    }
     // B4: 1-, 2- and 4-field structs
     for n in [1usize, 2, 4] {
         for deny in [Deny::No, Deny::Default] {
